@@ -289,12 +289,84 @@ def _realias(x, frm, to):
             _realias(v, frm, to)
 
 
-def _inline_call(c, bi, h, arg_ops):
+def _instantiate(x, tymap, constmap, impls):
+    """a copied fragment of a generic helper, specialised to the generic arguments of the call being inlined: type parameters are replaced in the type
+    strings of calls (and trait methods on them resolved to the impl's method when the crate has one), const parameters become their values"""
+    if not tymap and not constmap:
+        return
+    pat = re.compile(r"(?<![\w:'])(%s)(?![\w])" % "|".join(re.escape(k) for k in sorted(tymap, key=len, reverse=True))) if tymap else None
+
+    def sub_ty(s_):
+        return pat.sub(lambda m: tymap[m.group(1)], s_) if pat is not None and isinstance(s_, str) else s_
+
+    def resolve(callee, self_ty):
+        """<self_ty as Trait>::method of the crate, for a trait-method path Trait::method"""
+        if not callee or not self_ty or "::" not in callee:
+            return None
+        tr, meth = callee.rsplit("::", 1)
+        for im in impls:
+            if im.get("trait") and im["trait"].split("<")[0] == tr.split("<")[0] and im.get("self_ty") == self_ty:
+                for it in im.get("items", []):
+                    if it.rsplit("::", 1)[-1] == meth:
+                        return it
+        return None
+
+    def walk(y):
+        if isinstance(y, dict):
+            if "const" in y and isinstance(y["const"], dict):
+                cst = y["const"]
+                if cst.get("int") is None and cst.get("dbg") in constmap:
+                    cst["int"] = constmap[cst["dbg"]]
+                if cst.get("fn"):
+                    f2 = sub_ty(cst["fn"])
+                    if f2 != cst["fn"]:
+                        # a trait method named as a value: `<S as Trait>::m` or `Trait::m::<S>` (the first generic argument is Self)
+                        m = re.match(r"^<(.+) as ([^>]+(?:<.*>)?)>::(\w+)$", f2)
+                        m2 = re.match(r"^([\w:]+)::(\w+)::<([^,<>]+)>$", f2)
+                        r_ = None
+                        if m:
+                            r_ = resolve("%s::%s" % (m.group(2), m.group(3)), m.group(1))
+                        elif m2:
+                            r_ = resolve("%s::%s" % (m2.group(1), m2.group(2)), m2.group(3))
+                        cst["fn"] = r_ or f2
+                    cst["ty"] = sub_ty(cst.get("ty"))
+                return
+            if y.get("k") == "call":
+                st0 = y.get("self_ty")
+                y["substs"] = [sub_ty(z) for z in y.get("substs") or []]
+                y["self_ty"] = sub_ty(st0)
+                if y["self_ty"] != st0 or (y.get("resolved") in (None, y.get("callee")) and y.get("self_ty")):
+                    r_ = resolve(y.get("callee"), y["self_ty"])
+                    if r_:
+                        y["resolved"] = r_
+            for v in y.values():
+                walk(v)
+        elif isinstance(y, list):
+            for v in y:
+                walk(v)
+    walk(x)
+
+
+def _inline_call(c, bi, h, arg_ops, impls=()):
     """replace the call terminator of block `bi` of raw body `c` by the blocks of raw body `h` (MIR inlining on the fact representation)"""
     import copy
     t = c["blocks"][bi]["term"]
     L, B = len(c["locals"]), len(c["blocks"])
     c["locals"].extend(copy.deepcopy(h["locals"]))
+    # the helper's generic parameters take the call's generic arguments
+    tymap, constmap = {}, {}
+    gs, sb = h.get("generics") or [], t.get("substs") or []
+    if gs and len(gs) == len(sb):
+        for g_, a_ in zip(gs, sb):
+            if g_.startswith("'") or g_ == a_:
+                continue
+            if re.match(r"^-?\d+$", a_ or ""):
+                constmap[g_] = a_
+            elif re.match(r"^\w+$", g_):
+                tymap[g_] = a_
+    for l_ in c["locals"][L:]:
+        if tymap and isinstance(l_.get("ty"), str):
+            l_["ty"] = re.sub(r"(?<![\w:'])(%s)(?![\w])" % "|".join(re.escape(k) for k in sorted(tymap, key=len, reverse=True)), lambda m: tymap[m.group(1)], l_["ty"])
     blk = c["blocks"][bi]
     for k_, a in enumerate(arg_ops):
         blk["stmts"].append({"place": {"l": L + 1 + k_, "proj": []}, "rv": {"k": "use", "a": a}, "line": t.get("line"), "mac": False})
@@ -302,6 +374,7 @@ def _inline_call(c, bi, h, arg_ops):
     blk["term"] = {"k": "goto", "t": B}
     alias = dest["l"] if not dest["proj"] else None     # the callee's return place is the call's destination itself
     for hb in copy.deepcopy(h["blocks"]):
+        _instantiate(hb, tymap, constmap, impls)
         _renumber(hb, L, B)
         if alias is not None:
             _realias(hb, L, alias)
@@ -565,7 +638,9 @@ def splice_new_helpers(d, reference):
 
     def is_helper(b):
         return (b["kind"] in ("Fn", "AssocFn") and b["path"] not in reference and b["vis"] != "pub" and not b["file"].startswith("/")
-                and b.get("in_trait") is None and b.get("impl_trait") is None and len(b["blocks"]) <= 400)
+                and b.get("in_trait") is None and len(b["blocks"]) <= 400
+                # a method of an impl of one of the crate's own traits is a helper like any other once a call names it (`S::take` with S known)
+                and (b.get("impl_trait") is None or not re.match(r"(std|core|alloc)::", str(b["impl_trait"]))))
     helpers = {p for p, b in bodies.items() if is_helper(b)}
     if not helpers:
         return []
@@ -586,7 +661,7 @@ def splice_new_helpers(d, reference):
                     continue
                 nb = len(c["blocks"])
                 cont_, dest_ = t.get("ret"), t["dest"]
-                _inline_call(c, bi, h, list(t["args"]))
+                _inline_call(c, bi, h, list(t["args"]), d.get("impls", ()))
                 _thread_returns(c, nb, cont_, dest_, adt_discr)
                 for _ in range(3):
                     if not _inline_closure_calls(c, bodies, nb):
